@@ -43,7 +43,40 @@ def _moddir(cache):
     return os.path.join(cache, "pyiga", "modules")
 
 
-def run_child(cache, k, timeout=300, marker=None, wait=True, new_session=False):
+def _proc_sample(pid):
+    """(state, cpu seconds of the process, number of live descendants) from /proc; None if the process is gone."""
+    try:
+        with open("/proc/%d/stat" % pid) as f:
+            txt = f.read()
+        rest = txt[txt.rindex(")") + 2:].split()
+        state = rest[0]
+        cpu = (int(rest[11]) + int(rest[12])) / float(os.sysconf("SC_CLK_TCK"))
+    except (OSError, ValueError, IndexError):
+        return None
+    ndesc = 0
+    todo = [pid]
+    seen = set()
+    while todo:
+        q = todo.pop()
+        if q in seen:
+            continue
+        seen.add(q)
+        try:
+            for tid in os.listdir("/proc/%d/task" % q):
+                with open("/proc/%d/task/%s/children" % (q, tid)) as f:
+                    kids = [int(x) for x in f.read().split()]
+                ndesc += len(kids)
+                todo += kids
+        except OSError:
+            pass
+    return state, cpu, ndesc
+
+
+def run_child(cache, k, timeout=300, marker=None, wait=True, new_session=False, detect_block=False, block_window=60.0):
+    """detect_block: the child is the only process working on this cache.  If it sleeps without any descendant (no compiler
+    running) and without CPU progress for block_window seconds, it is reported as blocked: this is decided from the process
+    state, not from elapsed time alone - a child that is merely slow on a loaded machine is runnable ('R'), accumulates CPU
+    time or waits for a compiler child."""
     env = dict(os.environ)
     env["XDG_CACHE_HOME"] = cache
     env["PYTHONHASHSEED"] = "0"
@@ -52,13 +85,32 @@ def run_child(cache, k, timeout=300, marker=None, wait=True, new_session=False):
                          start_new_session=new_session, cwd=_base())
     if not wait:
         return p
-    try:
-        out, err = p.communicate(timeout=timeout)
-    except subprocess.TimeoutExpired:
-        p.kill()
-        out, err = p.communicate()
-        return {"rc": None, "out": out, "err": err, "timeout": True}
-    return {"rc": p.returncode, "out": out, "err": err}
+    t0 = time.time()
+    idle_since, idle_cpu = None, None
+    blocked = False
+    while True:
+        try:
+            out, err = p.communicate(timeout=1.0)
+            return {"rc": p.returncode, "out": out, "err": err}
+        except subprocess.TimeoutExpired:
+            pass
+        now = time.time()
+        if detect_block:
+            smp = _proc_sample(p.pid)
+            if smp is not None:
+                state, cpu, ndesc = smp
+                if state == "S" and ndesc == 0 and (idle_cpu is None or cpu - idle_cpu < 0.5):
+                    if idle_since is None:
+                        idle_since, idle_cpu = now, cpu
+                    elif now - idle_since >= block_window:
+                        blocked = True
+                else:
+                    idle_since, idle_cpu = None, None
+        if blocked or now - t0 > timeout:
+            p.kill()
+            out, err = p.communicate()
+            return {"rc": None, "out": out, "err": err, "timeout": True, "blocked": blocked,
+                    "idle_s": (now - idle_since) if idle_since else 0.0}
 
 
 def parse_result(res):
@@ -81,6 +133,9 @@ def reference_matrix(k):
 
 
 def judge(ctx, res, k, what, good_hex=None):
+    if res.get("blocked"):
+        raise Violation("fresh_request_succeeds", "%s: the next request blocks - the process slept for %.0f s without a compiler "
+                        "child and without CPU progress and never returned an assembler" % (what, res.get("idle_s", 0.0)))
     if res.get("timeout"):
         raise Skip("child timed out (inconclusive)")
     rc = res["rc"]
@@ -258,14 +313,14 @@ def check_fault(spec, ctx):
                 applied.append((t, apply_damage(p, damage, data)))
             # a restart between two faults: request once, ignore the outcome of the intermediate run's judgement here
             if spec.get("restart_between") and (ext, damage) != tuple(spec["faults"][-1]):
-                res = run_child(case, 0)
+                res = run_child(case, 0, detect_block=True)
                 judge(ctx, res, 0, "after fault %s:%s (intermediate restart)" % (ext, damage), STATE["good"]["matrix"])
         if not applied:
             raise Skip("no reachable fault state for this tree")
-        res = run_child(case, 0)
+        res = run_child(case, 0, detect_block=True)
         judge(ctx, res, 0, "after faults %r" % (spec["faults"],), STATE["good"]["matrix"])
         # and once more (the repaired cache must be usable again)
-        res = run_child(case, 0)
+        res = run_child(case, 0, detect_block=True)
         judge(ctx, res, 0, "second request after faults %r" % (spec["faults"],), STATE["good"]["matrix"])
     finally:
         shutil.rmtree(case, ignore_errors=True)
@@ -333,7 +388,7 @@ def check_kill(spec, ctx):
         if os.path.isdir(md):
             for root, dirs, fs in os.walk(md):
                 leftovers += fs
-        res = run_child(case, spec["form"])
+        res = run_child(case, spec["form"], detect_block=True)
         judge(ctx, res, spec["form"], "after SIGKILL at %.2f of the compile time (leftovers: %s)" % (spec["frac"], sorted(leftovers)[:6]))
         ctx.flag("killed" if not finished else "finished_before_kill", "group_kill" if spec["group"] else "single_kill",
                  "leftover_files" if leftovers else "no_leftovers")
